@@ -379,21 +379,20 @@ Qed.
 
 Definition covers (vals diffs : list Z) : Prop := Forall (fun d => In (diff_category d) vals) diffs.
 
-Lemma ll_decode_stream : forall w h comps P pred rows bits vals s,
+(* lossless.Decode on the stream layout of lossless.Encode, for ANY valid Huffman table that
+   contains the categories of the differences (not only the optimal one) *)
+Lemma ll_decode_stream_of : forall w h comps P pred rows bits vals,
   1 <= w <= 65535 -> 1 <= h <= 65535 -> comps = 1 \/ comps = 3 -> 2 <= P <= 16 -> 1 <= pred <= 7 ->
   length rows = Z.to_nat h ->
   Forall (fun r => length r = Z.to_nat w /\ Forall (goodpx P (Z.to_nat comps)) r) rows ->
   forall diffs, diffs = ll_diffs w comps P pred rows ->
-  build_optimal (count_freqs diffs) = Ok (bits, vals) ->
   t81_table_ok bits vals = true -> covers vals diffs ->
-  encode_stream w h comps P pred diffs = Ok s ->
-  jll_decode s = Ok (rows_to_pixels P rows, w, h, comps, P).
+  jll_decode (stream_of w h comps P pred diffs bits vals) = Ok (rows_to_pixels P rows, w, h, comps, P).
 Proof.
-  intros w h comps P pred rows bits vals s Hw Hh Hc HP Hpred Hlen Hrows diffs Ediffs Hopt Hok Hcov Henc.
+  intros w h comps P pred rows bits vals Hw Hh Hc HP Hpred Hlen Hrows diffs Ediffs Hok Hcov.
   rewrite ll_diffs_rows_map in Ediffs.
   pose proof (table_ok_facts _ _ Hok) as F.
-  pose proof (encode_stream_fwd w h comps P pred diffs bits vals Hopt) as Hf. rewrite Henc in Hf.
-  destruct (lookup_ok bits 0 0 (zlen vals)) eqn:Elk; [|discriminate Hf]. apply Ok_inj in Hf. subst s.
+  pose proof (lookup_ok_facts bits vals F) as Elk.
   unfold stream_of.
   assert (Hbt : build_table bits vals = Ok (ht_of bits vals)) by (unfold build_table; rewrite Elk; reflexivity).
   (* the scan bytes *)
@@ -446,7 +445,23 @@ Proof.
   - rewrite <- Ediffs. exact Hdok.
   - rewrite <- Ediffs. unfold wd. rewrite <- E3. rewrite <- (app_nil_r (stuff bs)). apply rep_init. exact E2.
   - rewrite <- Hlen. rewrite Edec. reflexivity.
-Time Qed.
+Qed.
+
+Lemma ll_decode_stream : forall w h comps P pred rows bits vals s,
+  1 <= w <= 65535 -> 1 <= h <= 65535 -> comps = 1 \/ comps = 3 -> 2 <= P <= 16 -> 1 <= pred <= 7 ->
+  length rows = Z.to_nat h ->
+  Forall (fun r => length r = Z.to_nat w /\ Forall (goodpx P (Z.to_nat comps)) r) rows ->
+  forall diffs, diffs = ll_diffs w comps P pred rows ->
+  build_optimal (count_freqs diffs) = Ok (bits, vals) ->
+  t81_table_ok bits vals = true -> covers vals diffs ->
+  encode_stream w h comps P pred diffs = Ok s ->
+  jll_decode s = Ok (rows_to_pixels P rows, w, h, comps, P).
+Proof.
+  intros w h comps P pred rows bits vals s Hw Hh Hc HP Hpred Hlen Hrows diffs Ediffs Hopt Hok Hcov Henc.
+  pose proof (encode_stream_fwd w h comps P pred diffs bits vals Hopt) as Hf. rewrite Henc in Hf.
+  rewrite (lookup_ok_facts bits vals (table_ok_facts _ _ Hok)) in Hf. apply Ok_inj in Hf. subst s.
+  eapply ll_decode_stream_of; eassumption.
+Qed.
 
 (* ---------- jll_roundtrip ---------- *)
 Lemma select_loop_range : forall ps var best minv, 1 <= best <= 7 ->
@@ -603,21 +618,18 @@ Proof.
   destruct c, r; assumption.
 Qed.
 
-Lemma sv1_decode_stream : forall w h comps P rows bits vals s,
+Lemma sv1_decode_stream_of : forall w h comps P rows bits vals,
   1 <= w <= 65535 -> 1 <= h <= 65535 -> comps = 1 \/ comps = 3 -> 2 <= P <= 16 ->
   length rows = Z.to_nat h ->
   Forall (fun r => length r = Z.to_nat w /\ Forall (goodpx P (Z.to_nat comps)) r) rows ->
   forall diffs, diffs = sv1_diffs w comps P rows ->
-  build_optimal (count_freqs diffs) = Ok (bits, vals) ->
   t81_table_ok bits vals = true -> covers vals diffs ->
-  encode_stream w h comps P 1 diffs = Ok s ->
-  sv1_decode s = Ok (rows_to_pixels P rows, w, h, comps, P).
+  sv1_decode (stream_of w h comps P 1 diffs bits vals) = Ok (rows_to_pixels P rows, w, h, comps, P).
 Proof.
-  intros w h comps P rows bits vals s Hw Hh Hc HP Hlen Hrows diffs Ediffs Hopt Hok Hcov Henc.
+  intros w h comps P rows bits vals Hw Hh Hc HP Hlen Hrows diffs Ediffs Hok Hcov.
   rewrite sv1_diffs_rows_map in Ediffs.
   pose proof (table_ok_facts _ _ Hok) as F.
-  pose proof (encode_stream_fwd w h comps P 1 diffs bits vals Hopt) as Hf. rewrite Henc in Hf.
-  destruct (lookup_ok bits 0 0 (zlen vals)) eqn:Elk; [|discriminate Hf]. apply Ok_inj in Hf. subst s.
+  pose proof (lookup_ok_facts bits vals F) as Elk.
   unfold stream_of.
   assert (Hbt : build_table bits vals = Ok (ht_of bits vals)) by (unfold build_table; rewrite Elk; reflexivity).
   assert (Hdok : diffs_ok vals diffs).
@@ -669,7 +681,23 @@ Proof.
   - rewrite <- Ediffs. unfold wd. rewrite <- E3. rewrite <- (app_nil_r (stuff bs)). apply rep_init. exact E2.
   - rewrite <- Hlen. rewrite Edec. cbn [obind fst]. unfold sv1_pixels. cbn [s_w s_h s_P s_comps].
     destruct Hc; subst comps; reflexivity.
-Time Qed.
+Qed.
+
+Lemma sv1_decode_stream : forall w h comps P rows bits vals s,
+  1 <= w <= 65535 -> 1 <= h <= 65535 -> comps = 1 \/ comps = 3 -> 2 <= P <= 16 ->
+  length rows = Z.to_nat h ->
+  Forall (fun r => length r = Z.to_nat w /\ Forall (goodpx P (Z.to_nat comps)) r) rows ->
+  forall diffs, diffs = sv1_diffs w comps P rows ->
+  build_optimal (count_freqs diffs) = Ok (bits, vals) ->
+  t81_table_ok bits vals = true -> covers vals diffs ->
+  encode_stream w h comps P 1 diffs = Ok s ->
+  sv1_decode s = Ok (rows_to_pixels P rows, w, h, comps, P).
+Proof.
+  intros w h comps P rows bits vals s Hw Hh Hc HP Hlen Hrows diffs Ediffs Hopt Hok Hcov Henc.
+  pose proof (encode_stream_fwd w h comps P 1 diffs bits vals Hopt) as Hf. rewrite Henc in Hf.
+  rewrite (lookup_ok_facts bits vals (table_ok_facts _ _ Hok)) in Hf. apply Ok_inj in Hf. subst s.
+  eapply sv1_decode_stream_of; eassumption.
+Qed.
 
 Lemma sv1_encode_fwd : forall w h comps P pixels, wf_image w h comps P pixels ->
   sv1_encode w h comps P pixels =
